@@ -13,6 +13,7 @@ package main
 import (
 	"bufio"
 	"bytes"
+	stdctx "context"
 	"encoding/json"
 	"fmt"
 	"os"
@@ -96,7 +97,8 @@ func die(code int, format string, args ...any) {
 
 // build regenerates the overlay and the simulator binary from /repo's working tree.
 func build() (simBin string, rep *detsel.Report) {
-	ovDir := filepath.Join(root, "build", "overlay")
+	tag := os.Getenv("VERIF_BUILD_TAG") // separate build outputs for runs that must not disturb the registered checks
+	ovDir := filepath.Join(root, "build", "overlay"+tag)
 	ov, rep, err := detsel.Generate(repo, ovDir)
 	if err != nil {
 		die(2, "BUILD-TROUBLE detsel: %v", err)
@@ -105,7 +107,7 @@ func build() (simBin string, rep *detsel.Report) {
 	if err == nil {
 		os.WriteFile(filepath.Join(root, "sim", "go.sum"), src, 0o644)
 	}
-	simBin = filepath.Join(root, "bin", "sim.test")
+	simBin = filepath.Join(root, "bin", "sim"+tag+".test")
 	args := []string{"test", "-c", "-vet=off", "-tags", "verif", "-overlay", ov, "-o", simBin}
 	if repo != "/repo" {
 		// a repository elsewhere (VERIF_REPO): same module file with the replace directive redirected
@@ -113,10 +115,10 @@ func build() (simBin string, rep *detsel.Report) {
 		if err != nil {
 			die(2, "BUILD-TROUBLE %v", err)
 		}
-		alt := filepath.Join(root, "build", "go.alt.mod")
+		alt := filepath.Join(root, "build", "go.alt"+tag+".mod")
 		os.WriteFile(alt, bytes.ReplaceAll(mod, []byte("=> /repo"), []byte("=> "+repo)), 0o644)
 		if sum, err := os.ReadFile(filepath.Join(repo, "go.sum")); err == nil {
-			os.WriteFile(filepath.Join(root, "build", "go.alt.sum"), sum, 0o644)
+			os.WriteFile(filepath.Join(root, "build", "go.alt"+tag+".sum"), sum, 0o644)
 		}
 		args = append(args, "-modfile="+alt)
 	}
@@ -214,12 +216,23 @@ func runWorker(simBin string, job map[string]any, dir string, k int, gomaxprocs 
 	jb, _ := json.Marshal(job)
 	os.WriteFile(jobFile, jb, 0o644)
 	os.Remove(out)
-	cmd := exec.Command(simBin, "-test.run", "^TestWorker$", "-test.timeout", "0", "-test.count", "1")
+	// Real-time guard: a world that blocks on something the simulated clock cannot see (a mutex, a
+	// busy loop) would hang the worker for ever. The limit is generous: budget + minimisation.
+	limit := 10 * time.Minute
+	if w, ok := job["wallMs"].(int64); ok && w > 0 {
+		limit = time.Duration(w)*time.Millisecond*3 + 5*time.Minute
+	}
+	ctx, cancel := stdctx.WithTimeout(stdctx.Background(), limit)
+	defer cancel()
+	cmd := exec.CommandContext(ctx, simBin, "-test.run", "^TestWorker$", "-test.timeout", "0", "-test.count", "1")
 	cmd.Env = append(os.Environ(), "SIM_JOB="+jobFile, "GOMAXPROCS="+gomaxprocs)
 	var stderr bytes.Buffer
 	cmd.Stdout = &stderr
 	cmd.Stderr = &stderr
 	err := cmd.Run()
+	if ctx.Err() != nil {
+		stderr.WriteString("\nWORKER-STUCK: killed after " + limit.String() + " of real time (a run that neither finishes nor reaches the simulated watchdog)\n")
+	}
 	lastIdx = -1
 	if jb, e := os.ReadFile(journal); e == nil {
 		lines := strings.Split(strings.TrimSpace(string(jb)), "\n")
@@ -274,6 +287,9 @@ func check(id, tier string) int {
 	os.MkdirAll(dir, 0o755)
 	defer os.RemoveAll(dir)
 	replayDir := filepath.Join(root, "replays")
+	if d := os.Getenv("VERIF_REPLAY_DIR"); d != "" {
+		replayDir = d
+	}
 	os.MkdirAll(replayDir, 0o755)
 	// stale replay files of this property/engine are removed: they are rewritten if the violation persists
 	if old, _ := filepath.Glob(filepath.Join(replayDir, id+"-"+p.Engine+"-*.json")); old != nil {
@@ -400,6 +416,11 @@ func check(id, tier string) int {
 			exit = 2
 			continue
 		}
+		if strings.Contains(d.tail, "WORKER-STUCK") {
+			fmt.Printf("HARNESS-TROUBLE run index %d (base seed %d) never finished in real time: it blocks on something the simulated clock cannot see; not a verdict\n", d.idx, baseSeed)
+			exit = 2
+			continue
+		}
 		job := map[string]any{"engine": p.Engine, "property": id, "tier": tier, "baseSeed": baseSeed, "only": []int{d.idx}, "replayDir": replayDir, "minimize": 0, "mode": p.Mode}
 		_, crashed, tail, _ := runWorker(simBin, job, dir, 1000+d.idx, "2")
 		first := firstPanicLine(tail)
@@ -511,10 +532,12 @@ func check(id, tier string) int {
 		"wall_s":     wallS,
 		"violations": nViol,
 	}
-	os.MkdirAll(filepath.Join(root, "evidence"), 0o755)
-	eb, _ := json.MarshalIndent(ev, "", " ")
-	if err := os.WriteFile(filepath.Join(root, "evidence", id+".json"), eb, 0o644); err != nil {
-		die(2, "cannot write evidence: %v", err)
+	if os.Getenv("VERIF_NO_EVIDENCE") == "" {
+		os.MkdirAll(filepath.Join(root, "evidence"), 0o755)
+		eb, _ := json.MarshalIndent(ev, "", " ")
+		if err := os.WriteFile(filepath.Join(root, "evidence", id+".json"), eb, 0o644); err != nil {
+			die(2, "cannot write evidence: %v", err)
+		}
 	}
 	fmt.Printf("%s %s: %d runs (%d non-trivial, %d distinct signatures), %.0f simulated s, %d violation class(es), %d known, wall %.1fs\n",
 		id, tier, total.Runs, total.Nontrivial, len(sigs), float64(total.SimNs)/1e9, nViol, len(knownHit), wallS)
